@@ -26,6 +26,7 @@ use lance_verif_harness::trace::{Args, TraceWriter};
 use serde_json::{json, Value};
 
 struct Ctx {
+    storage_version: Option<String>,
     uri: String,
     cols: Vec<String>,
     stable: bool,
@@ -39,6 +40,10 @@ fn wparams(ctx: &Ctx, mode: WriteMode, step: &Value) -> WriteParams {
         enable_stable_row_ids: ctx.stable,
         max_rows_per_file: step.get("max_rows_per_file").and_then(|v| v.as_u64()).unwrap_or(1 << 20) as usize,
         max_rows_per_group: step.get("max_rows_per_group").and_then(|v| v.as_u64()).unwrap_or(1024) as usize,
+        data_storage_version: ctx
+            .storage_version
+            .as_ref()
+            .map(|v| v.parse::<lance_file::version::LanceFileVersion>().expect("storage version")),
         ..Default::default()
     }
 }
@@ -534,6 +539,73 @@ async fn exec_step(ctx: &mut Ctx, step: &Value) -> (String, String, Value) {
             }
             out
         }
+        "take_probe" => {
+            // random access derived from the current table: every position / row id / address once,
+            // all of them in reverse order, a duplicate, and one position past the end
+            let r: lance::Result<Value> = async {
+                let d = Dataset::open(&ctx.uri).await?;
+                let p = project(&d).await?;
+                let stable = p["stable"].as_bool().unwrap_or(false);
+                let mut addrs: Vec<(u64, u64)> = vec![];
+                let mut rids: Vec<u64> = vec![];
+                for f in p["frags"].as_array().unwrap() {
+                    for r in f["rows"].as_array().unwrap() {
+                        addrs.push((f["id"].as_u64().unwrap(), r["off"].as_u64().unwrap()));
+                        if stable {
+                            rids.push(r["rid"].as_u64().unwrap());
+                        }
+                    }
+                }
+                let n = addrs.len() as u64;
+                let mut plans: Vec<(&str, Vec<Value>)> = vec![];
+                plans.push(("offset", (0..n).rev().map(|i| json!(i)).collect()));
+                for i in 0..n {
+                    plans.push(("offset", vec![json!(i)]));
+                }
+                if n > 0 {
+                    plans.push(("offset", vec![json!(0), json!(n - 1), json!(0)]));
+                }
+                plans.push(("offset", vec![json!(n)]));
+                if stable {
+                    plans.push(("rowid", rids.iter().rev().map(|x| json!(x)).collect()));
+                    for x in &rids {
+                        plans.push(("rowid", vec![json!(x), json!(x)]));
+                    }
+                }
+                plans.push(("addr", addrs.iter().rev().map(|(f, o)| json!([f, o])).collect()));
+                for (f, o) in &addrs {
+                    plans.push(("addr", vec![json!([f, o])]));
+                }
+                let proj = d.schema().project(&["id"])?;
+                let mut takes = vec![];
+                for (by, keys) in plans {
+                    let ks: Vec<u64> = keys
+                        .iter()
+                        .map(|x| match x.as_array() {
+                            Some(p) => (p[0].as_u64().unwrap() << 32) | p[1].as_u64().unwrap(),
+                            None => x.as_u64().unwrap(),
+                        })
+                        .collect();
+                    let res = if by == "offset" { d.take(&ks, proj.clone()).await } else { d.take_rows(&ks, proj.clone()).await };
+                    match res {
+                        Ok(b) => {
+                            let a = b.column_by_name("id").unwrap();
+                            let a = arrow_array::cast::AsArray::as_primitive::<arrow_array::types::Int32Type>(a.as_ref());
+                            let ids: Vec<i64> = (0..b.num_rows()).map(|i| a.value(i) as i64).collect();
+                            takes.push(json!({"by": by, "keys": keys, "res": "ok", "ids": ids}));
+                        }
+                        Err(e) => takes.push(json!({"by": by, "keys": keys, "res": classify(&e), "ids": []})),
+                    }
+                }
+                Ok(json!(takes))
+            }
+            .await;
+            let out = res_of(&r);
+            if let Ok(v) = r {
+                extra = json!({"takes": v});
+            }
+            out
+        }
         "reread" => {
             // time travel: project an old version through a fresh open
             let r = async {
@@ -582,6 +654,7 @@ fn main() {
         let dir = scratch.join(format!("s{}_{}", std::process::id(), li));
         let _ = std::fs::remove_dir_all(&dir);
         let mut ctx = Ctx {
+            storage_version: scn.get("storage_version").and_then(|v| v.as_str()).map(|s| s.to_string()),
             uri: dir.to_str().unwrap().to_string(),
             cols: if scn.get("cols").is_some() { strs_of(&scn["cols"]) } else { vec!["id".into(), "val".into()] },
             stable: scn.get("stable").and_then(|v| v.as_bool()).unwrap_or(false),
